@@ -164,6 +164,44 @@ int main(int argc, char **argv) {
   { std::string chain = "proc main() is 0(1"; for (int i = 0; i < 2000; i++) chain += " + 1"; chain += ")"; S->push_back(chain); }
   fams.push_back({"semantic-oddities", [=] { return (uint64_t)S->size(); }, [=](uint64_t i, std::string *) { return (*S)[i]; }, 32});
 
+  // sizes: every construct that has a size, at sizes around each power of 256 a one-byte or two-byte field could hold (and a few in between)
+  {
+    auto Z = std::make_shared<std::vector<std::pair<std::string, std::string>>>();
+    std::vector<int> sizes = {31, 32, 33, 63, 64, 65, 127, 128, 129, 254, 255, 256, 257, 258, 259, 260, 300, 500, 511, 512, 513, 1000, 1023, 1024, 1025, 2000, 4095, 4096, 4097};
+    if (ctx.thorough()) for (int z : {8191, 8192, 16384, 32767, 32768, 65535, 65536, 65537, 100000}) sizes.push_back(z);
+    auto rep_ = [](int n, const std::function<std::string(int)> &f, const std::string &sep) { std::string r; for (int i = 0; i < n; i++) { if (i) r += sep; r += f(i); } return r; };
+    for (int n : sizes) {
+      std::string N = std::to_string(n);
+      std::string lit; for (int i = 0; i < n; i++) lit += (char)('a' + i % 26);
+      Z->push_back({"string-literal:" + N, "proc p(array s) is 0(s[0] + s[1])\nproc main() is p(\"" + lit + "\")\n"});
+      Z->push_back({"two-string-literals:" + N, "proc p(array s, array t) is 0(s[0] + t[0])\nproc main() is p(\"" + lit + "\", \"" + lit + "\")\n"});
+      Z->push_back({"string-of-escapes:" + N, "proc p(array s) is 0(s[0])\nproc main() is p(\"" + rep_(n, [](int) { return std::string("\\n"); }, "") + "\")\n"});
+      Z->push_back({"identifier:" + N, "var " + lit + ";\nproc main() is { " + lit + " := 1; 0(" + lit + ") }\n"});
+      Z->push_back({"procedure-name:" + N, "proc " + lit + "() is skip\nproc main() is " + lit + "()\n"});
+      Z->push_back({"digits:" + N, "proc main() is 0(" + std::string(n, '0') + "7)\n"});
+      Z->push_back({"hex-digits:" + N, "proc main() is 0(#" + std::string(n, '0') + "F)\n"});
+      Z->push_back({"comment:" + N, "|" + lit + "\nproc main() is 0(1)\n"});
+      Z->push_back({"blank-run:" + N, "proc main()" + std::string(n, ' ') + "is" + std::string(n, '\n') + "0(1)\n"});
+      Z->push_back({"line-with-error:" + N, "proc main() is 0(" + rep_(n, [](int) { return std::string("1"); }, " + ") + " $)\n"});
+      if (n <= 4097) {
+        Z->push_back({"formals:" + N, "proc p(" + rep_(n, [](int i) { return "val a" + std::to_string(i); }, ", ") + ") is 0(a0 + a" + std::to_string(n - 1) + ")\nproc main() is p(" + rep_(n, [](int i) { return std::to_string(i % 7); }, ", ") + ")\n"});
+        Z->push_back({"locals:" + N, "proc main() is " + rep_(n, [](int i) { return "var v" + std::to_string(i) + ";"; }, " ") + " { v0 := 1; v" + std::to_string(n - 1) + " := 2; 0(v0 + v" + std::to_string(n - 1) + ") }\n"});
+        Z->push_back({"globals:" + N, rep_(n, [](int i) { return "var g" + std::to_string(i) + ";"; }, "\n") + "\nproc main() is { g0 := 1; g" + std::to_string(n - 1) + " := 2; 0(g0 + g" + std::to_string(n - 1) + ") }\n"});
+        Z->push_back({"vals:" + N, rep_(n, [](int i) { return "val k" + std::to_string(i) + " = " + (i ? "k" + std::to_string(i - 1) + " + 1" : std::string("70000")) + ";"; }, "\n") + "\nproc main() is 0(k" + std::to_string(n - 1) + ")\n"});
+        Z->push_back({"procedures:" + N, "var g;\n" + rep_(n, [](int i) { return "proc q" + std::to_string(i) + "() is g := g + 1"; }, "\n") + "\nproc main() is { g := 0; q0(); q" + std::to_string(n - 1) + "(); 0(g) }\n"});
+        Z->push_back({"statements:" + N, "proc main() is var x; { x := 0; " + rep_(n, [](int i) { return "x := x + " + std::to_string(i % 9); }, "; ") + "; 0(x) }\n"});
+        Z->push_back({"distinct-constants:" + N, "proc main() is var x; { x := 0; " + rep_(n, [](int i) { return "x := x + " + std::to_string(70000 + i); }, "; ") + "; 0(x) }\n"});
+        Z->push_back({"string-literals:" + N, "var g;\nproc p(array s) is g := g + s[0]\nproc main() is { g := 0; " + rep_(n, [](int i) { return "p(\"s" + std::to_string(i) + "\")"; }, "; ") + "; 0(g) }\n"});
+        Z->push_back({"call-arguments-nested:" + N, "func f(val a) is return a + 1\nproc main() is 0(" + rep_(std::min(n, 1025), [](int) { return std::string("f("); }, "") + "0" + std::string(std::min(n, 1025), ')') + ")\n"});
+        Z->push_back({"if-chain:" + N, "proc main() is var x; { x := 3; " + rep_(n, [](int i) { return "if x = " + std::to_string(i) + " then x := x + 1 else skip"; }, "; ") + "; 0(x) }\n"});
+        Z->push_back({"operand-chain:" + N, "proc main() is var x; { x := 1; 0(" + rep_(n, [](int) { return std::string("x"); }, " + ") + ") }\n"});
+      }
+      Z->push_back({"array-size:" + N, "array a[" + N + "];\nproc main() is { a[0] := 1; a[" + std::to_string(n - 1) + "] := 2; 0(a[0] + a[" + std::to_string(n - 1) + "]) }\n"});
+      Z->push_back({"local-array-size:" + N, "proc main() is array a[" + N + "]; { a[0] := 1; a[" + std::to_string(n - 1) + "] := 2; 0(a[0] + a[" + std::to_string(n - 1) + "]) }\n"});
+    }
+    fams.push_back({"sizes", [=] { return (uint64_t)Z->size(); }, [=](uint64_t i, std::string *d) { if (d) *d = (*Z)[i].first; return (*Z)[i].second; }, 64});
+  }
+
   for (auto &f : fams) {
     if (ctx.expired()) { rep.caps.push_back("family " + f.name + " not started (deadline)"); continue; }
     uint64_t n = f.count();
